@@ -550,7 +550,7 @@ func runC03(r *ev.Run) {
 			r.Sample(map[string]any{"config": sh.cfg.String(), "history": nm}, 5)
 		}
 	})
-	r.Set("traces_validated_against_impl", r.Get("states"))
+	r.Alias("traces_validated_against_impl", "states")
 	r.Set("rule", "every letter sequence of length depth, per configuration (backend, initial committed contents, node/value cache capacity, observe-every-step or at end); each execution runs on a fresh tree opened at the committed root; closing observation = all gets, full scan, scans from 14 seek positions, on the top of the stack, after committing all overlays, and after tree commit + reopen")
 	r.Assume("modifying a tree while one of its iterators is live is excluded (unspecified by the API)", "values are non-nil byte strings (empty or not)", "keys limited to the 5-key alphabet; seek positions to 14 probes")
 	sort.Strings(names)
